@@ -12,7 +12,7 @@ use serde_json::{json, Map, Value};
 
 const STREAM: u64 = 8;
 
-pub const DEVIATIONS: [&str; 29] = [
+pub const DEVIATIONS: [&str; 31] = [
     "none",
     "member-arity",
     "member-nonarray",
@@ -41,6 +41,8 @@ pub const DEVIATIONS: [&str; 29] = [
     "disclosure-not-json",
     "digest-decorated-in-sd",
     "digest-decorated-in-array",
+    "sd-malformed-container",
+    "placeholder-outside-array",
     "compose",
 ];
 
@@ -50,9 +52,9 @@ pub fn run(ctx: &Ctx) -> Report {
     let mut rep = Report::new(
         "fault_enumeration",
         "case i: a (payload, disclosures) pair produced by the harness's own encoder (nested objects/arrays depth<=3, hidden members and \
-         elements with present or withheld disclosures, decoys), with deviation kind i%29 forced at a random eligible site (kind \
+         elements with present or withheld disclosures, decoys), with deviation kind i%31 forced at a random eligible site (kind \
          'compose': 2-3 random deviations; 'none': well-formed control that must be accepted), signed with the test issuer key \
-         (alg=(i/29)%3), format=(i/87)%2. Oracle: specification verifier Spec (draft-07 §6.1). evaluations = tokens verified. \
+         (alg=(i/31)%3), format=(i/93)%2. Oracle: specification verifier Spec (draft-07 §6.1). evaluations = tokens verified. \
          Distinct = (payload shape, deviation set, format, alg); non-trivial = at least one deviation applied or >=1 referenced \
          disclosure.",
         local,
@@ -79,11 +81,21 @@ struct B<'a> {
     force: &'static str,
     forced_done: bool,
     extra_pct: u64,
+    used_registered: Vec<&'static str>,
 }
 
 impl<'a> B<'a> {
     fn name(&mut self) -> String {
         self.id += 1;
+        // now and then a member is called like a registered claim (cnf, address, ...): digest
+        // lists and placeholders below such a member are processed like anywhere else
+        if self.r.chance(12) {
+            let reg = *self.r.pick(&["cnf", "address", "vct", "status", "jti", "updated_at", "nationalities", "jwk", "iat"]);
+            if !self.used_registered.contains(&reg) {
+                self.used_registered.push(reg);
+                return reg.to_string();
+            }
+        }
         format!("k{}", self.id)
     }
     fn dev(&mut self, name: &'static str) -> bool {
@@ -185,7 +197,21 @@ impl<'a> B<'a> {
             }
         }
         if self.r.chance(30) {
-            let decoy = b64e(&[self.r.next().to_le_bytes(), self.r.next().to_le_bytes(), self.r.next().to_le_bytes(), self.r.next().to_le_bytes()].concat());
+            // an unmatched digest is any string no presented disclosure hashes to: mostly 32-byte
+            // values, sometimes other sizes (SHA-384 / SHA-512 sized, one byte more or less, empty)
+            // or text that is not base64url at all
+            let bytes: Vec<u8> = (0..12).flat_map(|_| self.r.next().to_le_bytes()).collect();
+            let decoy = match self.r.below(12) {
+                0 => b64e(&bytes[..48]),
+                1 => b64e(&bytes[..64]),
+                2 => b64e(&bytes[..33]),
+                3 => b64e(&bytes[..31]),
+                4 => b64e(&bytes[..34]),
+                5 => b64e(&bytes[..96]),
+                6 => format!("{}", self.r.pick(&["", "A", "not base64url!", "AAAA====", "ab~cd", "a.b.c"])),
+                7 => b64e(&bytes[..16]),
+                _ => b64e(&bytes[..32]),
+            };
             if self.dev("dup-unmatched") {
                 sd.push(json!(decoy.clone()));
             }
@@ -201,7 +227,17 @@ impl<'a> B<'a> {
             let e = self.r.pick(&[json!(7), json!(null), json!(["x"]), json!({"...": "x"})]).clone();
             sd.insert(i, e);
         }
-        if !sd.is_empty() || self.r.chance(5) {
+        if !sd.is_empty() && self.dev("sd-malformed-container") {
+            // the digests are there, but not in an array of strings directly under `_sd`
+            let h = sd[self.r.usize(sd.len())].clone();
+            let e = match self.r.below(5) {
+                0 | 1 => h,
+                2 => json!({"0": h}),
+                3 => json!({"_sd": [h]}),
+                _ => json!({"...": h}),
+            };
+            m.insert("_sd".into(), e);
+        } else if !sd.is_empty() || self.r.chance(5) {
             self.r.shuffle(&mut sd);
             // member order is preserved by the library's JSON maps: put `_sd` at a random position
             let at = self.r.usize(m.len() + 1);
@@ -226,6 +262,17 @@ impl<'a> B<'a> {
         }
         if self.dev("dots-key-in-object") {
             m.insert("...".into(), json!("x"));
+        }
+        if self.dev("placeholder-outside-array") {
+            // {"...": digest} with a PRESENTED 2-element disclosure, but as an object member's value
+            // (not an array element): nothing is to be disclosed there
+            let salt = self.salt();
+            let v = self.leaf();
+            let d = b64e(json!([salt, v]).to_string().as_bytes());
+            let h = digest_of(&d);
+            self.discs.push(d);
+            let k = self.name();
+            m.insert(k, json!({"...": h}));
         }
         Value::Object(m)
     }
@@ -289,6 +336,7 @@ pub fn build(r: &mut Rng, force: &'static str, extra_pct: u64) -> (Value, Vec<St
         force,
         forced_done: false,
         extra_pct,
+        used_registered: vec![],
     };
     let payload = b.obj(3);
     (payload, b.discs.clone(), b.applied.clone())
@@ -300,9 +348,9 @@ fn shape(v: &Value) -> u64 {
 
 fn one_case(ctx: &Ctx, case: u64, l: &mut Local) {
     let mut r = Rng::for_case(ctx.seed, STREAM, case);
-    let force = DEVIATIONS[(case % 29) as usize];
-    let alg = ALL_ALGS[((case / 29) % 3) as usize];
-    let fmt = FMTS[((case / 87) % 2) as usize];
+    let force = DEVIATIONS[(case % DEVIATIONS.len() as u64) as usize];
+    let alg = ALL_ALGS[((case / 31) % 3) as usize];
+    let fmt = FMTS[((case / 93) % 2) as usize];
     let mut b = B {
         r: &mut r,
         discs: vec![],
@@ -312,6 +360,7 @@ fn one_case(ctx: &Ctx, case: u64, l: &mut Local) {
         force,
         forced_done: false,
         extra_pct: if force == "compose" { 20 } else { 0 },
+        used_registered: vec![],
     };
     let mut payload = b.obj(3);
     let mut applied = b.applied.clone();
@@ -359,13 +408,46 @@ fn one_case(ctx: &Ctx, case: u64, l: &mut Local) {
     if !forced_applied {
         l.count("deviation.forced-but-no-eligible-site");
     }
-    let jwt = api::sign_payload(alg, 0, &payload, None);
+    // a quarter of the tokens bind a holder key and are presented with an honest KB-JWT (computed by
+    // the harness with SHA-256 over exactly this JWT and disclosure sequence) and verified with
+    // aud / nonce: disclosure processing must not depend on whether key binding is checked
+    let with_kb = r.chance(25);
+    let halg = *r.pick(&[crate::keys::Alg::ES256, crate::keys::Alg::EdDSA]);
+    if with_kb {
+        payload["cnf"] = json!({"jwk": crate::keys::holder_jwk_json_canonical(halg, 0)});
+    }
+    // the payload text is spelled in one of several equivalent ways (escaped member names, escaped
+    // digest strings, white space): what is signed is literal text, what it MEANS is `payload`
+    let spelling = if r.chance(35) { 1 + r.below(5) } else { 0 };
+    let jwt = if spelling == 0 {
+        api::sign_payload(alg, 0, &payload, None)
+    } else {
+        let text = model::respell(&payload, spelling);
+        if serde_json::from_str::<Value>(&text).ok().as_ref() != Some(&payload) {
+            l.count("skipped.respelling-not-equivalent");
+            return;
+        }
+        l.count(&format!("payload-spelling.{spelling}"));
+        api::sign_text(&json!({"alg": alg.name()}).to_string(), &text, alg.jwt(), &crate::keys::issuer_enc(alg, 0))
+    };
+    let kb = if with_kb {
+        let mut hashed = jwt.clone();
+        for d in &discs {
+            hashed.push('~');
+            hashed.push_str(d);
+        }
+        hashed.push('~');
+        l.count("with-key-binding");
+        Some(api::sign_kb(halg, 0, &json!({"nonce": "n-c08", "aud": "a-c08", "iat": api::now(), "sd_hash": digest_of(&hashed)}), Some("kb+jwt")))
+    } else {
+        None
+    };
     let parts = Parts {
         jwt,
         disclosures: discs.clone(),
-        kb: None,
+        kb,
     };
-    let pres = match parts.encode(fmt, case / 174) {
+    let pres = match parts.encode(fmt, case / 186) {
         Some(p) => p,
         None => return,
     };
@@ -374,10 +456,10 @@ fn one_case(ctx: &Ctx, case: u64, l: &mut Local) {
         return;
     }
     let spec = model::spec_verify(&payload, &discs);
-    let got = api::verify(&pres, &Resolver::Fixed(alg, 0), None, fmt).out;
+    let got = api::verify(&pres, &Resolver::Fixed(alg, 0), if with_kb { Some(("a-c08", "n-c08")) } else { None }, fmt).out;
     l.evals += 1;
     let decoded: Vec<String> = discs.iter().map(|d| model::b64d(d).ok().and_then(|b| String::from_utf8(b).ok()).unwrap_or_else(|| format!("<raw:{d}>"))).collect();
-    let input = || json!({"deviations": applied, "alg": alg.name(), "format": fmt.name(), "payload": payload, "disclosures": decoded});
+    let input = || json!({"deviations": applied, "alg": alg.name(), "format": fmt.name(), "payload": payload, "disclosures": decoded, "payload_spelling": spelling, "key_binding": with_kb});
     l.sample(case, input);
     if !applied.is_empty() || !discs.is_empty() {
         let mut h = shape(&payload) ^ (fmt as u64) ^ ((alg as u64) << 2);
